@@ -11,9 +11,9 @@ helpers is not modelled).  Go's operators on sized integers:
 
   `+ - * & | ^ &^ ^x -x`   → the `BitVec` operations (wrap-around)
   `/ %`                    → `sdiv/srem` (signed, truncating, `MinInt / -1` wraps) or `udiv/umod`
-  `x << n`, `x >> n`       → `goShl`, `goShr`: a negative *signed* count is a run-time panic; counts
-                             ≥ w give 0 (or the sign fill of an arithmetic shift)
-  `-r` on a sized count    → `negWrap`: wraps at the most negative value of the count's type
+  `x << n`, `x >> n`       → `goShl`, `goShr` with an unsigned count (the helpers convert a negative
+                             signed count `r` to `uint64(-int64(r))` first); counts ≥ w give 0
+                             (or the sign fill of an arithmetic shift)
 
 Core Lean only.
 -/
@@ -38,23 +38,7 @@ inductive Res (w : Nat) where
   | bitshiftOperand        -- TypeError "cannot be used as a bitshift operand"
   | coerce                 -- TypeError "cannot be coerced"
   | zeroDiv
-  | goPanic                -- Go run-time panic: negative shift amount
   deriving DecidableEq, Repr
-
-/-- width in bits of a signed count kind (`none` for the unsigned kinds and `bigInt`) -/
-def RKind.signedBits : RKind → Option Nat
-  | .smallInt => some 64 | .i64 => some 64 | .i32 => some 32 | .i16 => some 16 | .i8 => some 8
-  | _ => none
-
-def RKind.isUnsigned : RKind → Bool
-  | .u64 | .u32 | .u16 | .u8 | .uint => true
-  | _ => false
-
-/-- Go's `-r` for `r` of a signed type of `bits` bits -/
-def negWrap (bits : Nat) (v : Int) : Int := if v = -(2 ^ (bits - 1) : Int) then v else -v
-
-/-- `uint64(x)` of a signed 64-bit (or narrower, sign-extended) value -/
-def toU64 (v : Int) : Nat := (v % (2 ^ 64 : Int)).toNat
 
 /-- `a <<< n`, `a >>> n`, `a.sshiftRight n` computed without materialising `2^n` for huge counts
 (`Proofs/Strict.lean`: `shlSat_eq`, `lshrSat_eq`, `ashrSat_eq` show they are the `BitVec` shifts) -/
@@ -62,14 +46,12 @@ def shlSat {w} (a : BitVec w) (n : Nat) : BitVec w := if w ≤ n then 0#w else a
 def lshrSat {w} (a : BitVec w) (n : Nat) : BitVec w := if w ≤ n then 0#w else a >>> n
 def ashrSat {w} (a : BitVec w) (n : Nat) : BitVec w := a.sshiftRight (min n w)
 
-/-- `left << n` for a count `n` of a signed or unsigned Go type -/
-def goShl {w} (a : BitVec w) (n : Int) : Res w :=
-  if n < 0 then .goPanic else .ok (shlSat a n.toNat)
+/-- `left << n` for an unsigned count (`uint64(-int64(r))` for a negative `r`, or an unsigned operand) -/
+def goShl {w} (a : BitVec w) (n : Nat) : Res w := .ok (shlSat a n)
 
 /-- `left >> n`: arithmetic for signed `left`, logical for unsigned -/
-def goShr {w} (signed : Bool) (a : BitVec w) (n : Int) : Res w :=
-  if n < 0 then .goPanic
-  else .ok (if signed then ashrSat a n.toNat else lshrSat a n.toNat)
+def goShr {w} (signed : Bool) (a : BitVec w) (n : Nat) : Res w :=
+  .ok (if signed then ashrSat a n else lshrSat a n)
 
 /-- `LogicalRightShift8/16/32/64(left, right uint64)`: `L(uintN(left) >> right)` -/
 def logShr {w} (a : BitVec w) (n : Nat) : Res w := .ok (lshrSat a n)
@@ -77,53 +59,58 @@ def logShr {w} (a : BitVec w) (n : Nat) : Res w := .ok (lshrSat a n)
 /-- `(*BigInt).IsSmallInt` -/
 def fits64 (z : Int) : Bool := decide (-(2 ^ 63 : Int) ≤ z) && decide (z < (2 ^ 63 : Int))
 
+/-- how the helpers see the right operand: every integer kind yields a signed count (the
+magnitude of a negative count is taken in 64 bits: `uint64(-int64(r))`, which is exact for every
+value of every signed kind); a `*BigInt` that does not fit a word is only looked at for its sign -/
+inductive Count where
+  | left (n : Nat)       -- count ≥ 0
+  | right (n : Nat)      -- count < 0, magnitude n
+  | hugeLeft | hugeRight -- a BigInt beyond the word range (positive / negative)
+  | notAnInt
+
+def ROp.count (r : ROp) : Count :=
+  match r.kind with
+  | .other => .notAnInt
+  | .bigInt =>
+    if fits64 r.val then (if r.val < 0 then .right (-r.val).toNat else .left r.val.toNat)
+    else if 0 < r.val then .hugeLeft else .hugeRight
+  | _ => if r.val < 0 then .right (-r.val).toNat else .left r.val.toNat
+
 /-- `StrictIntLeftBitshift[T]` (`<<` on every sized type, `<<<` on the unsigned ones) -/
 def leftShift {w} (signed : Bool) (a : BitVec w) (r : ROp) : Res w :=
-  if r.kind == .other then .bitshiftOperand else
-  match r.kind.signedBits with
-  | some bits => if r.val < 0 then goShr signed a (negWrap bits r.val) else goShl a r.val
-  | none =>
-    if r.kind.isUnsigned then goShl a r.val
-    else -- *BigInt
-      if fits64 r.val then
-        if r.val < 0 then goShr signed a (negWrap 64 r.val) else goShl a r.val
-      else .ok 0
+  match r.count with
+  | .notAnInt => .bitshiftOperand
+  | .left n => goShl a n
+  | .right n => goShr signed a n
+  | .hugeLeft => .ok 0
+  | .hugeRight => goShr signed a 64        -- `left >> 64`: only the sign is left
 
 /-- `StrictIntRightBitshift[T]` (`>>` on every sized type, `>>>` on the unsigned ones) -/
 def rightShift {w} (signed : Bool) (a : BitVec w) (r : ROp) : Res w :=
-  if r.kind == .other then .bitshiftOperand else
-  match r.kind.signedBits with
-  | some bits => if r.val < 0 then goShl a (negWrap bits r.val) else goShr signed a r.val
-  | none =>
-    if r.kind.isUnsigned then goShr signed a r.val
-    else
-      if fits64 r.val then
-        if r.val < 0 then goShl a (negWrap 64 r.val) else goShr signed a r.val
-      else .ok 0
+  match r.count with
+  | .notAnInt => .bitshiftOperand
+  | .left n => goShr signed a n
+  | .right n => goShl a n
+  | .hugeLeft => goShr signed a 64
+  | .hugeRight => .ok 0
 
 /-- `StrictIntLogicalLeftBitshift[T]` (`<<<` on the signed types) -/
 def logicalLeftShift {w} (a : BitVec w) (r : ROp) : Res w :=
-  if r.kind == .other then .bitshiftOperand else
-  match r.kind.signedBits with
-  | some bits => if r.val < 0 then logShr a (toU64 (negWrap bits r.val)) else goShl a r.val
-  | none =>
-    if r.kind.isUnsigned then goShl a r.val
-    else
-      if fits64 r.val then
-        if r.val < 0 then logShr a (toU64 (negWrap 64 r.val)) else goShl a r.val
-      else .ok 0
+  match r.count with
+  | .notAnInt => .bitshiftOperand
+  | .left n => goShl a n
+  | .right n => logShr a n
+  | .hugeLeft => .ok 0
+  | .hugeRight => .ok 0
 
 /-- `StrictIntLogicalRightBitshift[T]` (`>>>` on the signed types) -/
 def logicalRightShift {w} (a : BitVec w) (r : ROp) : Res w :=
-  if r.kind == .other then .bitshiftOperand else
-  match r.kind.signedBits with
-  | some bits => if r.val < 0 then goShl a (negWrap bits r.val) else logShr a (toU64 r.val)
-  | none =>
-    if r.kind.isUnsigned then logShr a (toU64 r.val)
-    else
-      if fits64 r.val then
-        if r.val < 0 then goShl a (negWrap 64 r.val) else logShr a (toU64 r.val)
-      else .ok 0
+  match r.count with
+  | .notAnInt => .bitshiftOperand
+  | .left n => logShr a n
+  | .right n => goShl a n
+  | .hugeLeft => .ok 0
+  | .hugeRight => .ok 0
 
 inductive ShOp where
   | shl | shr | lshl | lshr
